@@ -4,6 +4,7 @@
 -/
 import Blackbird.Decode
 import Blackbird.Load
+import Blackbird.ErrorListener
 
 open Blackbird
 
@@ -36,6 +37,39 @@ def runHistory (fs : FS) : List String → Tables Float → List String → List
   | t :: ts, T, acc =>
     let (r, T') := loadsText fs T t
     runHistory fs ts T' (encLoadResult r :: acc)
+
+def decCls : String → CtxClass
+  | "start" => .start | "metadatablock" => .metadatablock | "expressionvar" => .expressionvar
+  | "arrayvar" => .arrayvar | "statement" => .statement | _ => .other
+
+/-- node: `cls:nvaom` with one 0/1 flag each for name, vartype, assign, operation, measure -/
+def decNode (s : String) : CtxNode :=
+  match s.splitOn ":" with
+  | [c, f] =>
+    let fl : List Bool := f.toList.map (fun c => c == '1')
+    ⟨decCls c, fl.getD 0 false, fl.getD 1 false, fl.getD 2 false, fl.getD 3 false, fl.getD 4 false⟩
+  | _ => ⟨.other, false, false, false, false, false⟩
+
+def encErrMsg : ErrMsg → String
+  | .invalidSymbol => "invalidSymbol" | .missingAssignment => "missingAssignment"
+  | .incompleteValue => "incompleteValue" | .invalidInVariable => "invalidInVariable"
+  | .arrayNeedsNewline => "arrayNeedsNewline" | .invalidInArray => "invalidInArray"
+  | .missingModes => "missingModes" | .modesNotSeparated => "modesNotSeparated"
+  | .missingName => "missingName" | .missingVersion => "missingVersion" | .generic => "generic"
+
+def handleErrl (args : List String) : String :=
+  match args with
+  | [ctx, anc, flags, line, col] =>
+    let fl : List Bool := flags.toList.map (fun c => c == '1')
+    let i : ErrInput := ⟨decNode ctx, (anc.splitOn ";").filter (· ≠ "") |>.map decNode,
+      fl.getD 0 false, fl.getD 1 false, fl.getD 2 false, fl.getD 3 false, fl.getD 4 false, fl.getD 5 false,
+      fl.getD 6 false, line.toNat?.getD 0, col.toNat?.getD 0⟩
+    let inv := if CtxInv i then "inv" else "noinv"
+    match syntaxError i with
+    | .syntaxErr l c m => s!"syntax {l} {c} {encErrMsg m} {inv}"
+    | .attributeError => s!"attribute {inv}"
+    | .unboundLocal => s!"unbound {inv}"
+  | _ => "bad-op"
 
 def handle (line : String) : String :=
   match line.splitOn "\t" with
@@ -71,6 +105,7 @@ def handle (line : String) : String :=
           match (matchTemplate t p).1 with
           | .ok am => encKw am
           | .error e => encErr e
+      | "ERRL", rest => handleErrl rest
       | "HIST", procCwd :: texts =>
         " ;; ".intercalate (runHistory (mkFS procCwd []) texts Tables.empty [])
       | _, _ => "bad-op"
